@@ -430,6 +430,10 @@ func genGoOptions(r *Rng) *protocol.MessageOptions {
 }
 
 func genGoTime(r *Rng) time.Time {
+	if r.Chance(4) {
+		// the epoch itself: seconds and nanoseconds both zero, the value an "unset" test would confuse it with
+		return time.Unix(0, 0).UTC()
+	}
 	s := int64(uint32(r.Next()))
 	if r.Chance(30) {
 		s = etSecs[r.Intn(len(etSecs))]
